@@ -42,6 +42,7 @@ type ClientConn struct {
 	Frames       chan Frame
 	mu           sync.Mutex
 	closed       bool
+	ending       bool
 	HandlerPanic string
 }
 
@@ -183,7 +184,15 @@ func (cc *ClientConn) SendRaw(b []byte) error {
 func (cc *ClientConn) locallyClosed() bool {
 	cc.mu.Lock()
 	defer cc.mu.Unlock()
-	return cc.closed
+	return cc.closed || cc.ending
+}
+
+// MarkEnding records that the client is about to do something that ends the connection (terminate, a message
+// the server answers by dropping the connection): a frame cut short by that end is the client's own doing.
+func (cc *ClientConn) MarkEnding() {
+	cc.mu.Lock()
+	cc.ending = true
+	cc.mu.Unlock()
 }
 
 // Close drops the connection abruptly.
